@@ -16,6 +16,8 @@ pub struct DiffOut {
     pub verdict: Verdict,
     pub refobs: Option<RefObs>,
     pub obs: Option<Obs>,
+    /// the implementation's parser does not read `src` back as the tree it was printed from
+    pub tree_differs: bool,
 }
 
 pub const VM_BUDGET: u64 = 300_000;
@@ -98,20 +100,22 @@ pub fn diff_program_budget(prog: &BlockStmt, vm_budget: u64, ref_budget: u64) ->
 
 pub fn diff_source_budget(prog: &BlockStmt, src: String, vm_budget: u64, ref_budget: u64) -> DiffOut {
     crate::engine::note_current("parse", &src);
-    match nederlang::parser::parse(&src) {
-        Ok(tree) => {
-            if format!("{tree:?}") != format!("{prog:?}") {
-                return DiffOut { src, verdict: Verdict::Discard("printer/parser mismatch (see C07)".into()), refobs: None, obs: None };
-            }
-        }
-        Err(_) => {
-            return DiffOut { src, verdict: Verdict::Discard("printed text does not parse (see C07)".into()), refobs: None, obs: None };
-        }
-    }
+    // The printed text denotes `prog` (Appendix A). If the implementation's parser reads it as another tree, or not at
+    // all, the case is not discarded: the reference still runs the tree the text was printed from, so a parser that
+    // changes what a program means shows as a mismatch (a different tree with the same behaviour is unobservable).
+    let tree_differs = match std::panic::catch_unwind(|| nederlang::parser::parse(&src)) {
+        Ok(Ok(tree)) => format!("{tree:?}") != format!("{prog:?}"),
+        _ => true,
+    };
     let r = run_reference(prog, ref_budget);
     let o = run_eval(&src, &RunCfg { budget: vm_budget, audit_heap: true });
-    let verdict = compare(&r, &o);
-    DiffOut { src, verdict, refobs: Some(r), obs: Some(o) }
+    let mut verdict = compare(&r, &o);
+    if tree_differs {
+        if let Verdict::Violation { expected, .. } = &mut verdict {
+            expected.push_str(" | note: the implementation's parser does not read this text as the tree it was printed from");
+        }
+    }
+    DiffOut { src, verdict, refobs: Some(r), obs: Some(o), tree_differs }
 }
 
 /// Differential run of a source text (parsed by the implementation's own parser)
@@ -120,5 +124,5 @@ pub fn diff_text(src: &str) -> Result<DiffOut, String> {
     let r = run_reference(&prog, REF_BUDGET);
     let o = run_eval(src, &RunCfg { budget: VM_BUDGET, audit_heap: true });
     let verdict = compare(&r, &o);
-    Ok(DiffOut { src: src.to_string(), verdict, refobs: Some(r), obs: Some(o) })
+    Ok(DiffOut { src: src.to_string(), verdict, refobs: Some(r), obs: Some(o), tree_differs: false })
 }
